@@ -240,7 +240,7 @@ Section ReaderRoot.
     - destruct (N.eq_dec w0 wd) as [<-|Hn]; [rewrite Hwd by reflexivity; apply pset_eq | rewrite pset_neq; auto].
     - intros q Hq. destruct (bytes_eq_dec q p) as [->|Hn].
       + rewrite wset_eq in Hq. inversion Hq; subst. now apply Hwd.
-      + rewrite wset_neq in Hq by exact Hn. now apply B.
+      + rewrite wset_neq in Hq by exact Hn. apply ReaderFixProofs.unlabel_sub in Hq. now apply B.
     - exact D.
     - exact E0.
   Qed.
@@ -581,7 +581,8 @@ Section PipeRoot.
     exists (f_ino e), wd. split; [exact Hroot|].
     assert (H1 : RR C (f_ino e) wd k1 r1).
     { unfold add_watch in Ea. destruct (mem_nat (calls rinit0) (c_faults C)); [discriminate|].
-      unfold kadd_watch in Ea. rewrite El in Ea. simpl in Ea. inversion Ea; subst; clear Ea.
+      unfold kadd_watch in Ea. rewrite El in Ea. simpl in Ea.
+      rewrite ReaderFixProofs.unlabel_fresh in Ea by reflexivity. simpl in Ea. inversion Ea; subst; clear Ea.
       split; [|split].
       - split; simpl; [repeat constructor; intros [] | intros x [<-|[]]; simpl; lia].
       - exists {| kw_wd := 1; kw_ino := f_ino e; kw_mask := c_mask C |}. split; [|reflexivity].
